@@ -106,6 +106,23 @@ Record tout := {
 }.
 Inductive wdl := WBad | WStake (net : Z) (script : bool) (h : Z).   (* withdrawal key parsed as a stake address *)
 
+(* Shelley-MA certificates (alonzo::Certificate) as far as check_certificates looks at them; a stake
+   credential is 2*hash + (1 if script), hashes are integers *)
+Inductive cert :=
+| CReg (c : Z) | CDereg (c : Z) | CDeleg (c pool : Z)
+| CPoolReg (operator cost : Z) | CPoolRet (pool epoch : Z)
+| CGenDeleg (gkh dkh vrf : Z)
+| CMir (treasury : bool) (target : option (list (Z * Z))).   (* Some: credential -> delta (i64); None: other accounting pot *)
+(* the parts of CertState that check_certificates reads *)
+Record cstate := {
+  cs_rewards : list (Z * Z);                 (* credential -> reward balance *)
+  cs_ptrs : list ((Z * Z * Z) * Z);          (* (slot, tx index, certificate index) -> credential *)
+  cs_pools : list Z;                         (* registered pool ids (keys of pool_params) *)
+  cs_gen : list (Z * (Z * Z));               (* genesis key -> (delegate, vrf) *)
+  cs_fut_gen : list ((Z * Z) * (Z * Z));     (* (slot, genesis key) -> (delegate, vrf) *)
+  cs_ir_reserves : list (Z * Z);             (* instantaneous rewards, reserves pot *)
+  cs_ir_treasury : list (Z * Z)
+}.
 Record tx := {
   t_era : Z;                         (* 0 Byron, 1 Shelley, 2 Allegra, 3 Mary, 4 Alonzo, 5 Babbage, 6 Conway *)
   t_size : Z;
@@ -133,9 +150,11 @@ Record tx := {
   w_v3 : option (list Z);
   w_datums : option (list Z);
   w_redeemers : option (list redeemer);
-  (* Shelley-MA certificates: outside the model *)
-  c_certs : outcome unit;
-  c_dep : Z; c_refund : Z; c_pool : Z;
+  (* Shelley-MA certificates, the certificate state they run on, and (rule level only) deposit counters
+     handed to check_preservation_of_value instead of the ones check_certificates computes *)
+  t_certs : option (list cert);
+  t_cstate : cstate;
+  t_counts : option (Z * Z * Z);
   (* Byron *)
   b_outs : list Z;
   b_wits : list (Z * Z * Z * bool)   (* kind 0 Pk / 1 script (unprocessable) / 2 Redeem, key length, signature length, verifies *)
@@ -148,9 +167,10 @@ Record params := {
   p_ada_per_utxo_byte : Z; p_max_value_size : Z; p_collateral_percentage : Z; p_max_collateral_inputs : Z;
   p_ex_mem : Z; p_ex_steps : Z;
   p_cm_v1 : bool; p_cm_v2 : bool; p_cm_v3 : bool;       (* Conway: cost model present *)
-  p_summand : Z; p_multiplier : Z
+  p_summand : Z; p_multiplier : Z;
+  p_min_pool_cost : Z; p_maximum_epoch : Z
 }.
-Record env := { e_pp : params; e_magic : Z; e_slot : Z; e_netid : Z; e_acnt : bool }.
+Record env := { e_pp : params; e_magic : Z; e_slot : Z; e_netid : Z; e_acnt : bool; e_treasury : Z; e_reserves : Z }.
 
 Definition coin_of (v : value) : Z := match v with VCoin c => c | VMulti c _ => c end.
 
@@ -359,6 +379,105 @@ Definition sh_min_lovelace (o : tout) (pp : params) : option Z :=
   end.
 Definition sh_check_min_lovelace (t : tx) (pp : params) : outcome unit :=
   fail_if (existsb (fun o => match sh_min_lovelace o pp with Some m => coin_of (o_val o) <? m | None => true end) (t_outputs t)) 207.
+(* ---- certificates: shelley_ma::check_certificates with the time arithmetic of
+   pallas_traverse::wellknown::GenesisValues::mainnet() (absolute_slot_to_relative / relative_slot_to_absolute) *)
+Definition mem_pool (x : Z) (l : list Z) : bool := existsb (fun y => y =? x) l.
+Definition STAB_WIN : Z := 129600.
+Definition sat_add64 (a b : Z) : Z := Z.min (a + b) (U64 - 1).            (* u64::saturating_add *)
+(* to_epoch: Byron slots are 20 s and epochs 432000 s; Shelley starts at slot 4492800 = epoch 208 *)
+Definition to_epoch (slot : Z) : Z :=
+  if slot <? 4492800 then (slot * 20) / 432000 else 208 + (slot - 4492800) / 432000.
+(* first_slot: the Shelley branch multiplies and adds in plain u64 (pallas-traverse/src/time.rs) *)
+Definition first_slot (dev : bool) (epoch : Z) : outcome Z :=
+  if epoch <? 208 then Ok ((epoch * 432000) / 20)
+  else s <- mul64 dev (epoch - 208) 432000 ;; add64 dev 4492800 s.
+Definition has_key {A} (k : Z) (l : list (Z * A)) : bool := existsb (fun kv => fst kv =? k) l.
+Fixpoint set_kv {A} (k : Z) (v : A) (l : list (Z * A)) : list (Z * A) :=
+  match l with [] => [(k, v)] | (k', x) :: r => if k' =? k then (k', v) :: r else (k', x) :: set_kv k v r end.
+Definition ptr_eqb3 (a b : Z * Z * Z) : bool :=
+  let '(a1, a2, a3) := a in let '(b1, b2, b3) := b in (a1 =? b1) && (a2 =? b2) && (a3 =? b3).
+Definition upd_rewards (st : cstate) r := Build_cstate r (cs_ptrs st) (cs_pools st) (cs_gen st) (cs_fut_gen st) (cs_ir_reserves st) (cs_ir_treasury st).
+Definition upd_ptrs (st : cstate) p := Build_cstate (cs_rewards st) p (cs_pools st) (cs_gen st) (cs_fut_gen st) (cs_ir_reserves st) (cs_ir_treasury st).
+Definition upd_pools (st : cstate) p := Build_cstate (cs_rewards st) (cs_ptrs st) p (cs_gen st) (cs_fut_gen st) (cs_ir_reserves st) (cs_ir_treasury st).
+Definition upd_fut_gen (st : cstate) f := Build_cstate (cs_rewards st) (cs_ptrs st) (cs_pools st) (cs_gen st) f (cs_ir_reserves st) (cs_ir_treasury st).
+Definition upd_ir (st : cstate) r t := Build_cstate (cs_rewards st) (cs_ptrs st) (cs_pools st) (cs_gen st) (cs_fut_gen st) r t.
+(* check_mir *)
+Definition sh_check_mir (dev : bool) (treasury : bool) (target : option (list (Z * Z))) (st : cstate) (slot pot_t pot_r : Z) : outcome cstate :=
+  fs <- first_slot dev (to_epoch slot + 1) ;;
+  if fs <=? sat_add64 slot STAB_WIN then Err 230 else
+  let ir_pot := if treasury then cs_ir_treasury st else cs_ir_reserves st in
+  let pot := if treasury then pot_t else pot_r in
+  let combined := match target with
+                  | Some kvp => fold_left (fun m kv => set_kv (fst kv) (snd kv) m) (map (fun kv => (fst kv, i64_as_u64 (snd kv))) kvp ++ ir_pot) []
+                  | None => [] end in
+  (* checked sum: an overflow is more than any pot *)
+  match sum_checked (map snd combined) 0 229 with
+  | Ok total => if pot <? total then Err 229
+                else Ok (if treasury then upd_ir st (cs_ir_treasury st) combined else upd_ir st combined (cs_ir_reserves st))
+  | Err x => Err x
+  | Panic p => Panic p
+  end.
+(* one certificate: new state and counters (registrations, deregistrations, new pools); on an error the
+   counters are returned as far as they were updated *)
+Definition sh_cert (dev : bool) (c : cert) (cert_ix : Z) (st : cstate) (cnt : Z * Z * Z) (e : env) : outcome cstate * (Z * Z * Z) :=
+  let '(dep, refund, pools) := cnt in
+  let slot := e_slot e in
+  match c with
+  | CReg cr =>
+      let cnt' := (dep + 1, refund, pools) in
+      if has_key cr (cs_rewards st) then (Err 219, cnt')
+      else if existsb (fun kv => ptr_eqb3 (fst kv) (slot, 0, cert_ix)) (cs_ptrs st) then (Err 221, cnt')
+      else (Ok (upd_ptrs (upd_rewards st (set_kv cr 0 (cs_rewards st))) (cs_ptrs st ++ [((slot, 0, cert_ix), cr)])), cnt')
+  | CDereg cr =>
+      match find_q cr (cs_rewards st) with
+      | None => (Err 220, cnt)
+      | Some 0 => (Ok (upd_ptrs (upd_rewards st (filter (fun kv => negb (fst kv =? cr)) (cs_rewards st)))
+                                (filter (fun kv => negb (snd kv =? cr)) (cs_ptrs st))), (dep, refund + 1, pools))
+      | Some _ => (Err 222, cnt)
+      end
+  | CDeleg cr pool =>
+      if negb (mem_pool pool (cs_pools st)) then (Err 224, cnt)
+      else if has_key cr (cs_rewards st) then (Ok st, cnt) else (Err 220, cnt)
+  | CPoolReg op cost =>
+      let known := mem_pool op (cs_pools st) in
+      let cnt' := if known then cnt else (dep, refund, pools + 1) in
+      if cost <? p_min_pool_cost (e_pp e) then (Err 225, cnt')
+      else if known then (Ok st, cnt') else (Ok (upd_pools st (op :: cs_pools st)), cnt')
+  | CPoolRet pool repoch =>
+      if negb (mem_pool pool (cs_pools st)) then (Err 224, cnt)
+      else let cepoch := to_epoch slot in
+           if (cepoch <? repoch) && (repoch <=? sat_add64 cepoch (p_maximum_epoch (e_pp e))) then (Ok st, cnt) else (Err 224, cnt)
+  | CGenDeleg gkh dkh vrf =>
+      let cod := map snd (filter (fun kv => negb (fst kv =? gkh)) (cs_gen st)) in
+      let fod := map snd (filter (fun kv => negb (snd (fst kv) =? gkh)) (cs_fut_gen st)) in
+      if existsb (fun v => fst v =? dkh) cod || existsb (fun v => fst v =? dkh) fod
+         || existsb (fun v => snd v =? vrf) cod || existsb (fun v => snd v =? vrf) fod then (Err 226, cnt)
+      else if negb (has_key gkh (cs_gen st)) then (Err 228, cnt)
+      else let k := (sat_add64 slot STAB_WIN, gkh) in
+           (Ok (upd_fut_gen st (filter (fun kv => negb ((fst (fst kv) =? fst k) && (snd (fst kv) =? gkh))) (cs_fut_gen st) ++ [(k, (dkh, vrf))])), cnt)
+  | CMir treasury target =>
+      (sh_check_mir dev treasury target st slot (e_treasury e) (e_reserves e), cnt)
+  end.
+(* the loop of check_certificates: `ptr.cert_ix = ix as u32` is assigned AFTER the certificate at
+   position ix was checked, so position 0 and position 1 both see certificate index 0 *)
+Fixpoint sh_certs_loop (dev : bool) (cs : list cert) (ix cert_ix : Z) (st : cstate) (cnt : Z * Z * Z) (e : env) : outcome unit * (Z * Z * Z) :=
+  match cs with
+  | [] => (ok, cnt)
+  | c :: r =>
+      match sh_cert dev c cert_ix st cnt e with
+      | (Ok st', cnt') => sh_certs_loop dev r (ix + 1) (as_u32 ix) st' cnt' e
+      | (Err x, cnt') => (Err x, cnt')
+      | (Panic p, cnt') => (Panic p, cnt')
+      end
+  end.
+Definition sh_certs (dev : bool) (t : tx) (e : env) : outcome unit * (Z * Z * Z) :=
+  match t_certs t with
+  | Some cs => sh_certs_loop dev cs 0 0 (t_cstate t) (0, 0, 0) e
+  | None => (ok, (0, 0, 0))
+  end.
+Definition sh_counts (dev : bool) (t : tx) (e : env) : Z * Z * Z :=
+  match t_counts t with Some c => c | None => snd (sh_certs dev t e) end.
+
 Definition is_multi (v : value) : bool := match v with VMulti _ _ => true | VCoin _ => false end.
 (* get_consumed *)
 Fixpoint sh_consumed_ins (ins : list inref) (u : utxo) (shelley : bool) (acc : value) : outcome value :=
@@ -373,9 +492,10 @@ Fixpoint sh_consumed_ins (ins : list inref) (u : utxo) (shelley : bool) (acc : v
       | _ => Err 201
       end
   end.
-Definition sh_get_consumed (dev : bool) (t : tx) (u : utxo) (pp : params) : outcome value :=
+Definition sh_get_consumed (dev : bool) (t : tx) (u : utxo) (pp : params) (cnt : Z * Z * Z) : outcome value :=
+  let '(c_dep, c_refund, c_pool) := cnt in
   r <- sh_consumed_ins (t_inputs t) u (t_era t =? 1) (VMulti 0 []) ;;
-  k <- ok_or (cmul64 (p_key_deposit pp) (c_refund t)) 209 ;;
+  k <- ok_or (cmul64 (p_key_deposit pp) c_refund) 209 ;;
   r2 <- add_values r (VCoin k) 209 ;;
   match t_mint t with Some m => add_minted_value r2 m 209 | None => Ok r2 end.
 Fixpoint sh_produced_outs (outs : list tout) (shelley : bool) (acc : value) : outcome value :=
@@ -384,16 +504,17 @@ Fixpoint sh_produced_outs (outs : list tout) (shelley : bool) (acc : value) : ou
   | o :: r => if is_multi (o_val o) && shelley then Err 211
               else a <- add_values acc (o_val o) 209 ;; sh_produced_outs r shelley a
   end.
-Definition sh_get_produced (dev : bool) (t : tx) (pp : params) : outcome value :=
+Definition sh_get_produced (dev : bool) (t : tx) (pp : params) (cnt : Z * Z * Z) : outcome value :=
+  let '(c_dep, c_refund, c_pool) := cnt in
   r <- sh_produced_outs (t_outputs t) (t_era t =? 1) (VMulti 0 []) ;;
   r2 <- add_values r (VCoin (t_fee t)) 209 ;;
-  d <- ok_or (match cmul64 (p_pool_deposit pp) (c_pool t), cmul64 (p_key_deposit pp) (c_dep t) with
+  d <- ok_or (match cmul64 (p_pool_deposit pp) c_pool, cmul64 (p_key_deposit pp) c_dep with
              | Some a, Some b => cadd64 a b
              | _, _ => None end) 209 ;;
   add_values r2 (VCoin d) 209.
-Definition sh_check_preservation (dev : bool) (t : tx) (u : utxo) (pp : params) : outcome unit :=
-  c <- sh_get_consumed dev t u pp ;;
-  p <- sh_get_produced dev t pp ;;
+Definition sh_check_preservation (dev : bool) (t : tx) (u : utxo) (pp : params) (cnt : Z * Z * Z) : outcome unit :=
+  c <- sh_get_consumed dev t u pp cnt ;;
+  p <- sh_get_produced dev t pp cnt ;;
   fail_if (negb (values_equal skip0 c p)) 208.
 (* `minfee_b as u64 + minfee_a as u64 * size as u64`: plain u64 operations on u32 operands *)
 Definition min_fee_u32 (dev : bool) (pp : params) (size : Z) : outcome Z :=
@@ -468,5 +589,5 @@ Definition sh_check_min_lovelace_era (t : tx) (pp : params) : outcome unit :=
 Definition shelley_checks (dev : bool) (t : tx) (u : utxo) (e : env) : list (outcome unit) :=
   let pp := e_pp e in
   [ sh_check_ins_not_empty t; sh_check_ins_in_utxos t u; sh_check_ttl t e; sh_check_tx_size t pp;
-    sh_check_min_lovelace_era t pp; c_certs t; sh_check_preservation dev t u pp; sh_check_fees dev t pp;
+    sh_check_min_lovelace_era t pp; fst (sh_certs dev t e); sh_check_preservation dev t u pp (sh_counts dev t e); sh_check_fees dev t pp;
     sh_check_network_id t e; check_aux t 214; sh_check_witnesses t u; sh_check_minting t ].
